@@ -544,6 +544,35 @@ func c17OpIDNotOverwritten(ctx *core.Ctx, r *RT, gen *ssa.Function, opidConst st
 					return isK && k == opidConst && t2 == target && isFresh(c2.Args()[2])
 				}
 				reassigned = ssax.PathFrom(fn, in, ssax.IsReturn, setsID) == nil
+				// a visitor closure handed to an iteration helper: what follows the
+				// iteration in the enclosing function counts (the captured context
+				// resolves to the enclosing function's value)
+				if par := fn.Parent(); !reassigned && par != nil {
+					ssax.Instrs(par, func(pi ssa.Instruction) {
+						call, ok := pi.(*ssa.Call)
+						if !ok {
+							return
+						}
+						for _, a := range call.Call.Args {
+							if mc, isMC := ssax.Strip(a).(*ssa.MakeClosure); isMC && mc.Fn == ssa.Value(fn) {
+								hands := func(i ssa.Instruction) bool { // a return that hands a context out
+									ret, isRet := i.(*ssa.Return)
+									if !isRet {
+										return false
+									}
+									if len(ret.Results) == 0 {
+										return true
+									}
+									k, isK := ssax.Strip(ret.Results[0]).(*ssa.Const)
+									return !(isK && k.IsNil())
+								}
+								if ssax.PathFrom(par, pi, hands, setsID) == nil {
+									reassigned = true
+								}
+							}
+						}
+					})
+				}
 			}
 			ctx.Check(guarded || reassigned, "C17.R4", ssax.Name(fn)+sprintf(" › header copy #%d cannot overwrite the op id", n), r.IPos(in), "guarded by key != _opid, or a fresh op id is assigned afterwards",
 				"request headers are copied under arbitrary keys onto a context that already has its fresh op id, without excluding the reserved op-id header: the copy carries the source's op id, so the clone (and every sibling clone) shares it")
